@@ -34,14 +34,25 @@ func (x *Exec) runDeferList(s *State, ds []*ssa.Defer, i int, then func(*State))
 	} else if f, ok2 := c.Value.(*ssa.Function); ok2 {
 		fn = f
 	}
+	var args []Val
+	for _, a := range c.Args {
+		args = append(args, x.valueOf(s, a))
+	}
+	if fn != nil && fn.Pkg != x.p.SSA && x.p.Names[fn] == "" {
+		// deferred library call: only the mutex operations occur
+		name := fn.Name()
+		if r := fn.Signature.Recv(); r != nil && typeStr(r.Type()) == "*sync.RWMutex" && len(args) == 1 {
+			x.lockOp(s, d, name, args[0])
+		} else {
+			x.unsupported("deferred library call %s", fn.String())
+		}
+		x.runDeferList(s, ds, i-1, then)
+		return
+	}
 	if fn == nil {
 		x.unsupported("deferred call of unknown function")
 		then(s)
 		return
-	}
-	var args []Val
-	for _, a := range c.Args {
-		args = append(args, x.valueOf(s, a))
 	}
 	x.execFunction(s, fn, args, binds, func(s2 *State, _ []Val) {
 		x.runDeferList(s2, ds, i-1, then)
